@@ -49,7 +49,7 @@ ANCHORS = ['pfhedge.nn.functional:d1',
            'pfhedge.nn.modules.bs._base:acquire_params_from_derivative_1',
            'pfhedge.nn.modules.bs._base:acquire_params_from_derivative_2']
 DECIDING = ["price.european", "price.european_binary", "price.american_binary", "price.lookback", "module.plumbing"]
-REQUIRED_BRANCHES = ["american_binary.max==strike>spot", "european.put", "european_binary.put", "american_binary.max>=strike", "american_binary.max<strike",
+REQUIRED_BRANCHES = ["module.resimulated_through_underlier", "american_binary.max==strike>spot", "european.put", "european_binary.put", "american_binary.max>=strike", "american_binary.max<strike",
                      "lookback.max>=strike", "lookback.max<strike", "strike!=1"]
 
 _CTX = None
@@ -265,19 +265,34 @@ def drv_module(ctx, k, rng):
     init = (float(K * math.exp(rng.uniform(-0.2, 0.2))) if rng.random() < 0.5 else K,) if isinstance(stock, BrownianStock) else None
     d.simulate(n_paths=2, init_state=init)
     m = BlackScholes(d)
+    if rng.random() < 0.5:
+        # price once, then let the market data change through another handle (the shared underlier): the module must price the *current* state
+        with torch.no_grad():
+            m.price()
+            d.max_log_moneyness()
+        stock.simulate(n_paths=2, time_horizon=mat, init_state=init)
+        ctx.branch("module.resimulated_through_underlier")
     mon = "module.plumbing"
     ctx.seen(mon)
     price = m.price()  # judged element-wise by the passive oracle where t > 0
-    s, tt, v = d.log_moneyness(), d.time_to_maturity(), d.ul().volatility
+    # the derivative's state, recomputed here from the buffers (not read back through the derivative's own accessors)
+    spot = stock.spot
+    Tn = spot.shape[1]
+    s = (spot / K).log()
+    mlm = s.cummax(dim=-1).values
+    tt = ((Tn - 1 - torch.arange(Tn)).to(spot) * stock.dt).unsqueeze(0).expand_as(spot)
+    v = stock.volatility
     if kind == "european":
         want = F.bs_european_price(s, tt, v, strike=K, call=call)
     elif kind == "european_binary":
         want = F.bs_european_binary_price(s, tt, v, call=call)
     elif kind == "american_binary":
-        want = F.bs_american_binary_price(s, d.max_log_moneyness(), tt, v)
+        want = F.bs_american_binary_price(s, mlm, tt, v)
     else:
-        want = F.bs_lookback_price(s, d.max_log_moneyness(), tt, v, strike=K)
-    ok = price.shape == want.shape and torch.equal(price[:, :-1], want[:, :-1]) and m.strike == K and getattr(m, "call", True) == call
+        want = F.bs_lookback_price(s, mlm, tt, v, strike=K)
+    e_ = float(torch.finfo(price.dtype).eps)
+    ok = (price.shape == want.shape and bool(((price[:, :-1] - want[:, :-1]).abs() <= 64 * e_ * (want[:, :-1].abs() + K + 1)).all()) and m.strike == K
+          and getattr(m, "call", True) == call)
     ctx.check(mon, ok, "plumbing", f"BlackScholes({type(d).__name__}(call={call}, strike={K})).price() differs from the functional form on the "
               "derivative's own state", sig=(kind, call, K == 1.0, str(dtype), type(stock).__name__), price=price[0, :4], want=want[0, :4],
               module_strike=m.strike, module_call=getattr(m, "call", None))
